@@ -208,6 +208,15 @@ func check(c *pbt.Ctx, cs Case) {
 	if !bytes.Equal(out, keep) {
 		c.Failf("result-overwritten", "the document returned by Do (%d bytes) changed during a later conversion:\n%s\nwas\n%s", len(out), trunc(out), trunc(keep))
 	}
+	if cs.BufCap == 7 || len(enc)%8 == 3 {
+		c.Step("the same t2j conversion from 8 goroutines at once")
+		c.Class("concurrent-callers")
+		if d := pbt.Concurrently(8, 40, keep, false, func() ([]byte, error) {
+			return cv.Do(ctx, comp.Root, append(make([]byte, 0, len(enc)+16), enc...))
+		}); d != "" {
+			c.Failf("concurrent-differs", "t2j called concurrently on one converter differs from the call alone: %s", d)
+		}
+	}
 	if len(out) > 4096 {
 		c.Class("document>4096")
 	}
